@@ -39,7 +39,11 @@ func init() {
 			"(layout) generated images 8 KiB..2 MiB with 2..8 metadata sections (+0..2 empty temporary-memory sections at any position, incl. before the TD HOB and last) in any declared order (types BFV/CFV/TD-HOB/TempMem, EXTEND on/off, undefined attribute bits, memory anywhere below 2^40: touching, straddling 3/4 GiB, data ranges partitioned or overlapping/unaligned, descriptor at any offset, extra GUID-table entries) " +
 			"with generated non-overlapping RAM bank lists (touching, nested around sections, zero length, unsorted, unaligned, straddling 4 GiB, above 2^40) in the three launch modes; " +
 			"(retention, inside shapes/layout/example) the regions of the previous 1-3 Extract* calls are kept while later calls for other modes / bank lists / images run, then looked at again; (concurrent) 4-16 goroutines call tdx.MRTD and ovmf.Extract* at the same time for different shapes / bank lists / modes on the same and on different images; " +
-			"(grid) small-scope exhaustive: every placement of <=2 extra sections and <=2 banks (incl. an empty bank) on a 6-point page grid around 4 GiB, both legacy modes. " +
+			"(grid) small-scope exhaustive: every placement of <=2 extra sections and <=2 banks (incl. an empty bank) on a 6-point page grid around 4 GiB, both legacy modes; " +
+			"(sequence) one caller making 8-16 calls with values it keeps: one image buffer refilled in place (same and other length), one LaunchOptions value whose fields are changed between calls in every order, one bank slice refilled in place / handed in again / nil / empty, one EndorsementRequest; " +
+			"between the judged calls: calls that fail at each place the repository can give up (metadata not found, descriptor, section validation, overlap after earlier regions were built, TD-HOB too small after all regions were built, unaligned base and EXTEND-flagged temporary memory after records were hashed, unknown shape after earlier rows) incl. in the caller's own buffer, the caller writing over generated results it got (TD-HOB and temporary-memory buffers, region structs, per-shape options, rows), two tdx.Measurement values fed in turn, early accept without measure-all (observed only); " +
+			"(capacity) 2..84 sections and up to 1368 banks so that the TD-HOB section is exactly full / has one or two descriptors to spare / gets one too many first (TD-HOB of 1-4 and 6-30 pages; descriptor counts around 84, 169, 254, 340, 256 and 65536/48); " +
+			"(concurrent-with-failing) 4-12 goroutines, failing calls of the same kinds among the good ones. " +
 			"Oracle: for a model-valid image/configuration tdx.MRTD must return the model's SHA-384 record stream digest; regions returned by ovmf.Extract* must be the declared sections in declared order with the image bytes / the model's TD-HOB (decoded by an independent HOB reader: hand-off table, one system-memory descriptor per section, unaccepted = RAM minus sections ascending with the early-accept rule, end marker, zero padding); " +
 			"shape bank lists must equal the model's table; every UnsignedTDX row must equal the model for its shape/mode; the grid's unaccepted descriptors must equal a per-page characteristic-function sweep. " +
 			"a result that equalled the model when it was returned must still do so (TD-HOB bytes, digest of its regions under the model's record stream) after later calls, and every concurrent call must return the model's value. " +
@@ -79,7 +83,10 @@ func procCPU() int64 {
 	if err := syscall.Getrusage(0, &ru); err != nil {
 		return 0
 	}
-	return ru.Utime.Nano() + ru.Stime.Nano()
+	// user time only (as core does): on a loaded machine the kernel charges reclaim / fault handling to
+	// whoever faults, as system time; seen once: 3 s charged during a sub-millisecond grid call with the
+	// machine at load 150. A repository loop that does not end burns user time.
+	return ru.Utime.Nano()
 }
 
 // breaker ends the shard (violation recorded, summary written) when a repository call does not return:
@@ -288,6 +295,7 @@ type runner struct {
 	retainedOK    int
 	zeroBeforeHOB int
 	concOK        int
+	aud           audit
 }
 
 func witness(fw []byte, sp any, banks []tdxref.Range, m tdxref.Mode, more map[string]any) map[string]any {
@@ -405,7 +413,7 @@ func hasTempExtend(secs []tdxref.Section) bool {
 
 // measureAll runs the three (or the given) modes of one image/bank list through the regions entry
 // point and tdx.MRTD and compares with the model.
-func (r *runner) measure(i int, kind, gen string, fw []byte, banks []tdxref.Range, ms []tdxref.Mode, feat map[string]bool, sample bool) {
+func (r *runner) measure(i int, kind, gen string, fw []byte, banks []tdxref.Range, ms []tdxref.Mode, feat map[string]bool, sample bool) (equal int) {
 	c := r.c
 	for _, m := range ms {
 		mb := banks
@@ -474,6 +482,7 @@ func (r *runner) measure(i int, kind, gen string, fw []byte, banks []tdxref.Rang
 			continue
 		}
 		r.equalByMode[m]++
+		equal++
 		for _, u := range exp.Unaccepted {
 			if tdxref.UnacceptedAttr(u, m.EarlyAll())&tdxref.AttrNeedsEarlyAccept != 0 {
 				r.earlyAttrOn++
@@ -521,6 +530,7 @@ func (r *runner) measure(i int, kind, gen string, fw []byte, banks []tdxref.Rang
 			}
 		}
 	}
+	return equal
 }
 
 // selfCheck makes sure the image the generator wrote is read back by the model as the spec.
@@ -1014,7 +1024,7 @@ func sameRanges(a, b []tdxref.Range) bool {
 }
 
 func run(c *core.Ctx) {
-	r := &runner{c: c, equalByMode: map[tdxref.Mode]int{}, shapesSeen: map[string]bool{}}
+	r := &runner{c: c, equalByMode: map[tdxref.Mode]int{}, shapesSeen: map[string]bool{}, aud: newAudit()}
 	go r.brk.watch(c)
 	nShapes := c.N(120, 1500)
 	nLayout := c.N(2400, 28000)
@@ -1022,8 +1032,12 @@ func run(c *core.Ctx) {
 	bankCfgs := gridBankConfigs()
 	nConc := c.N(48, 600)
 	total := 1 + nShapes + nLayout + len(secCfgs) + nConc
+	// families appended later keep the case numbers (and PRNG streams) of everything above
+	nSeq := c.N(200, 2400)
+	nFit := c.N(96, 1200)
+	nCF := c.N(40, 480)
 	gridRan := false
-	for i := 0; i < total; i++ {
+	for i := 0; i < total+nSeq+nFit+nCF; i++ {
 		if !c.Mine(i) {
 			continue
 		}
@@ -1039,6 +1053,12 @@ func run(c *core.Ctx) {
 			r.caseShapes(i)
 		case j < nShapes+nLayout:
 			r.caseLayout(i)
+		case i >= total+nSeq+nFit:
+			r.caseConcFail(i)
+		case i >= total+nSeq:
+			r.caseFit(i)
+		case i >= total:
+			r.caseSequence(i)
 		default:
 			k := j - nShapes - nLayout
 			r.caseGrid(i, k, secCfgs[k], bankCfgs)
@@ -1071,6 +1091,7 @@ func run(c *core.Ctx) {
 	c.Count("zero-size-tempmem/before-tdhob-legacy-equal", r.zeroBeforeHOB)
 	c.Floor("zero-size-tempmem-before-tdhob-measured", r.zeroBeforeHOB > 0)
 	c.Floor("concurrent-calls-compared", r.concOK > 0)
+	r.auditSummary()
 	for _, sh := range tdxref.Shapes {
 		if r.shapesSeen[sh.Name] {
 			c.Count("shape-equal/"+sh.Name, 1)
